@@ -188,6 +188,34 @@ def Spec (i : Info) (s : Bytes) : Prop :=
     s = ids.flatMap renderId ++ feats.flatMap renderFeat ++ rs.flatten
 
 
+/-! ## Size: what is hashed, whatever the order (round D)
+
+`verGiven` writes the items in the order in which they are given, nothing sorted; `Info.size`
+counts every hashed string once plus one separator each.  `Props/C20.lean` proves that the
+bytes of `verImpl` are a rearrangement of those of `verGiven` (sorting moves whole items, it
+never drops, repeats or cuts one) and that `verImpl` has `Info.size` bytes - for **every**
+info, equal keys included; the harness demands the length of what the real code hashes. -/
+
+def renderFieldGiven (f : Field) : Bytes := f.var ++ lt ++ f.values.flatMap renderFeat
+
+def renderFormGiven (F : Form) : Bytes := F.formType ++ lt ++ F.dataFields.flatMap renderFieldGiven
+
+def verGiven (i : Info) : Bytes :=
+  i.ids.flatMap renderId ++ i.feats.flatMap renderFeat ++ i.forms.flatMap renderFormGiven
+
+def Identity.size (i : Identity) : Nat :=
+  i.cat.length + i.typ.length + i.lang.length + i.name.length + 4
+
+def strSize (s : Bytes) : Nat := s.length + 1
+
+def Field.size (f : Field) : Nat := f.var.length + 1 + (f.values.map strSize).sum
+
+def Form.size (F : Form) : Nat := F.formType.length + 1 + (F.dataFields.map Field.size).sum
+
+def Info.size (i : Info) : Nat :=
+  (i.ids.map Identity.size).sum + (i.feats.map strSize).sum + (i.forms.map Form.size).sum
+
+
 /-! ## Probe domains (the regenerated facts of `Generated/C20.lean` are tables over them) -/
 
 /-- for every ordered pair of distinct positions `(i, j)` of `u`: does `le u[i] u[j]` hold, i.e.
